@@ -224,6 +224,13 @@ func intersect(r1, r2 *geom.Bounds) bool {
 	if r2.Max.Y < r1.Min.Y || r1.Max.Y < r2.Min.Y {
 		return false
 	}
+	// The comparisons above take a1 <= b1 and a2 <= b2 for granted. An empty
+	// box (the bounds of a geometry without vertices have their minimum at
+	// +Inf and their maximum at -Inf) passes them against a box that is
+	// unbounded on both sides, and it holds no point.
+	if r1.Empty() || r2.Empty() {
+		return false
+	}
 	return true
 }
 
